@@ -293,6 +293,38 @@ fn escape_case(input: &str, stored: &str, looked_up: &str) {
     std::mem::forget(t);
 }
 
+/// Lookup side alone: the message is stored with real newlines (nothing to unescape when it is
+/// set), so only `get_message`'s escaping runs on a text with newlines.
+fn lookup_case(stored: &str, looked_up: &str) {
+    let mut t = TextArchive::new(TextArchiveFormat::ShiftJIS, Endian::Little);
+    t.set_message("k", stored);
+    let got = t.get_message("k").unwrap();
+    assert!(got.len() == looked_up.len(), "C07: every stored newline must come back as the two characters backslash, n (length)");
+    assert!(got == looked_up, "C07: every stored newline must come back escaped on lookup (a trailing newline included)");
+    std::mem::forget(got);
+    std::mem::forget(t);
+}
+
+// @tier quick
+// @timeout 900
+// @mem 12
+// @bounds the stored message "<LF>" (a single real newline) or "a<LF>" (solver-chosen): a newline at the very end of a message
+// @unwindset memchr=40
+// @claims get_message escapes every stored newline, the last character of the message included
+// @assume core::slice::memchr::memchr replaced by a plain loop (stubs.rs)
+#[kani::proof]
+#[kani::unwind(16)]
+#[kani::stub(core::slice::memchr::memchr, crate::stubs::memchr_model)]
+fn c07_lookup_trailing_newline() {
+    let two: bool = kani::any();
+    if two {
+        lookup_case("a\n", "a\\n");
+    } else {
+        lookup_case("\n", "\\n");
+    }
+    kani::cover!(two);
+}
+
 // @tier thorough
 // @timeout 3600
 // @mem 44
